@@ -734,6 +734,7 @@ def run(repo, rep, tier):
     # ---- R2: NocaseDict --------------------------------------------------
     ncd = repo.cls('pywbem/_vendor/nocasedict/_nocasedict.py', 'NocaseDict')
     _r8_dict_copy(repo, rep, ncd)
+    _r9_eq_closed(repo, rep)
     hm = repo.cls('pywbem/_vendor/nocasedict/_hashable.py', 'HashableMixin')
     vpath = ncd.module.relpath
     r2.sites += 1
@@ -958,3 +959,70 @@ def _r8_dict_copy(repo, rep, ncd):
                     'a keybindings dictionary with an unnamed key (key None) '
                     'yields a copy on which ==, != and item access raise '
                     'ValueError' % ', '.join(missing))
+
+
+def _r9_eq_closed(repo, rep):
+    """C05.R9: == is decided among objects of the class itself.  __hash__
+    hashes the attributes of one class; an __eq__ that converts `other`
+    (from a string, a dict, ...) or accepts objects of another type makes
+    a == b hold for objects that hash differently, and is not transitive
+    when the conversion identifies several spellings."""
+    from ..paths import return_paths
+    r9 = rep.rule('C05.R9', '__eq__ compares only with objects of the own '
+                  'class and never converts the other operand')
+    for rel in (OBJ, TYP):
+        mod = repo.module(rel)
+        for cls in mod.classes.values():
+            f = cls.methods.get('__eq__')
+            if f is None or len(f.params) < 2:
+                continue
+            if len(f.body) == 1 and isinstance(f.body[0], ast.Raise):
+                continue          # abstract (mixin)
+            oth = f.params[1]
+            r9.sites += 1
+            r9.functions.add(f.fq)
+            stores = [n for n in walk_no_nested(f.node)
+                      if isinstance(n, ast.Name) and n.id == oth and
+                      isinstance(n.ctx, (ast.Store, ast.Del))]
+            bad = None
+            if stores:
+                bad = ('rebinds', stores[0].lineno,
+                       'the other operand is replaced by a converted object '
+                       'before the comparison')
+            paths = return_paths(f, inline=False)
+            if paths is None:
+                r9.undecided.append('%s: too many paths' % f.qualname)
+                continue
+            want = 'isinstance(%s, %s)' % (oth, cls.name)
+            for p in paths:
+                if bad:
+                    break
+                v = p.value
+                if v is None or (isinstance(v, ast.Constant) and
+                                 v.value in (False, NotImplemented)) or \
+                        norm(v) == 'NotImplemented':
+                    continue
+                texts = {(norm(e), pol) for e, pol in p.facts}
+                if ('self is %s' % oth, True) in texts or \
+                        ('%s is self' % oth, True) in texts:
+                    continue
+                if (want, True) in texts:
+                    continue
+                bad = ('foreign-type', getattr(p.ret_stmt, 'lineno',
+                                               f.node.lineno),
+                       'a path returns %s without having established %s'
+                       % (norm(v, 50), want))
+            r9.ob(bad is None, f.qualname, {'class': cls.name,
+                                            'paths': len(paths)})
+            if bad:
+                rep.finding(r9, f.qualname, want, bad[0], rel, bad[1],
+                            '%s: objects of different types (e.g. a '
+                            'CIMDateTime and the string spelling it) then '
+                            'compare equal although __hash__ differs, and '
+                            'two spellings of one value are equal to the '
+                            'same object but not to each other (hash law '
+                            'and transitivity of == are lost, also for '
+                            'paths and dictionaries holding such values)'
+                            % bad[2])
+    if r9.sites < 10:
+        raise AnalysisError('only %d __eq__ methods found' % r9.sites)
